@@ -10,8 +10,16 @@
 From Coq Require Import List Bool Arith NArith.
 Import ListNotations.
 From TarpcV Require Import Base Transport Client ClientS ClientMon ClientSpec ClientWake
-  ClientWakeSpec ClientWakeProofs ClientWakeSettles ClientProofsG1Fuel.
+  ClientWakeSpec ClientWakeProofs ClientWakeSettles ClientWakeMon ClientProofsG1Fuel.
 Local Open Scope N_scope.
+
+(* The C02 monitor - the executable predicate that is evaluated on the REAL client's wake-driven
+   traces: every settle terminates; once the dispatch failed or was dropped nobody is left
+   unresolved; an unresolved call on a writable, untampered transport has something in flight;
+   every delivered response has been read - accepts every wake-driven run of the model. *)
+Theorem C02_monitor : forall c ops,
+  wno_wrap ops -> (1 <= cf_qcap c)%nat -> c02_ok c ops (wrun c ops) = true.
+Proof. exact c02_monitor_holds. Qed.
 
 (* (ii-a) Once the dispatch has ended with an error, or has been dropped, and the system has
    been driven until nothing acts any more, no call is left unresolved - for every configuration
@@ -75,6 +83,7 @@ Example C02_monitor_rejects_stall :
   c02_ok cfg ops (wrun cfg ops) = true /\ c02_ok cfg ops stalled = false.
 Proof. vm_compute. split; reflexivity. Qed.
 
+Print Assumptions C02_monitor.
 Print Assumptions C02_dead_resolved.
 Print Assumptions C02_quiescent_resolved.
 Print Assumptions C02_poll_total.
